@@ -1,9 +1,13 @@
 package drv
 
 import (
+	"context"
 	"errors"
 	"fmt"
+	"io"
 	"math/rand"
+	"net/url"
+	"os"
 	"reflect"
 	"sync"
 	"time"
@@ -12,15 +16,18 @@ import (
 )
 
 type retryGetter struct {
-	mu      sync.Mutex
-	start   time.Time
-	fails   int // -1 forever
-	calls   []int64 // offsets in ms... stored in microseconds
-	hdr     map[string][]string
-	body    []byte
-	perCall time.Duration
-	url     string
-	urlOk   bool
+	mu        sync.Mutex
+	start     time.Time
+	fails     int     // -1 forever
+	calls     []int64 // offsets in ms... stored in microseconds
+	hdr       map[string][]string
+	body      []byte
+	perCall   time.Duration
+	url       string
+	urlOk     bool
+	slowFirst time.Duration
+	errSeed   int
+	ends      []int64
 }
 
 func (g *retryGetter) Get(u string) (map[string][]string, []byte, error) {
@@ -35,8 +42,32 @@ func (g *retryGetter) Get(u string) (map[string][]string, []byte, error) {
 	if g.perCall > 0 {
 		time.Sleep(g.perCall)
 	}
+	if i == 1 && g.slowFirst > 0 { // one attempt that takes its time before it fails (a connect timeout, say)
+		time.Sleep(g.slowFirst)
+	}
+	defer func() {
+		g.mu.Lock()
+		g.ends = append(g.ends, time.Since(g.start).Microseconds())
+		g.mu.Unlock()
+	}()
 	if g.fails < 0 || i <= g.fails {
-		return map[string][]string{"X-Failed": {"1"}}, []byte("partial garbage"), errors.New("scripted: temporary failure")
+		// a failure is a failure whatever kind of error reports it (the wrapped getter's own deadlines and cancellations included)
+		var err error
+		switch (g.errSeed + i) % 6 {
+		case 0:
+			err = errors.New("scripted: temporary failure")
+		case 1:
+			err = fmt.Errorf("scripted: request failed: %w", context.DeadlineExceeded)
+		case 2:
+			err = &url.Error{Op: "Get", URL: u, Err: context.DeadlineExceeded}
+		case 3:
+			err = fmt.Errorf("scripted: %w", context.Canceled)
+		case 4:
+			err = os.ErrDeadlineExceeded
+		default:
+			err = io.ErrUnexpectedEOF
+		}
+		return map[string][]string{"X-Failed": {"1"}}, []byte("partial garbage"), err
 	}
 	return g.hdr, g.body, nil
 }
@@ -70,7 +101,10 @@ func RunRetryCase(cs map[string]any, id int, seed int64) Result {
 	if body != nil {
 		bodyCopy = append([]byte{}, body...)
 	}
-	g := &retryGetter{fails: fails, hdr: hdr, body: body, url: fmt.Sprintf("https://pcs.example/%d", rng.Int63()), urlOk: true}
+	g := &retryGetter{fails: fails, hdr: hdr, body: body, url: fmt.Sprintf("https://pcs.example/%d", rng.Int63()), urlOk: true, errSeed: id}
+	if sf, ok := cs["slowFirst"].(float64); ok {
+		g.slowFirst = time.Duration(sf) * time.Millisecond
+	}
 	if max == 0 {
 		g.perCall = time.Millisecond // bounds the number of attempts of the "retry at once" schedule
 	}
@@ -88,12 +122,19 @@ func RunRetryCase(cs map[string]any, id int, seed int64) Result {
 	time.Sleep(max + 30*time.Millisecond)
 	g.mu.Lock()
 	calls := append([]int64{}, g.calls...)
+	ends := append([]int64{}, g.ends...)
 	g.mu.Unlock()
+	prevDur := func(i int) int { // how long the attempt before attempt i+1 took, in ms (rounded down)
+		if i == 0 || i-1 >= len(ends) {
+			return 0
+		}
+		return int((ends[i-1] - calls[i-1]) / 1000)
+	}
 	evs := []Event{{"ev": "Call", "case": id, "input": cs}}
 	const keep = 48
 	for i, c := range calls {
 		if i < keep {
-			evs = append(evs, Event{"ev": "Attempt", "i": i + 1, "t": int(c / 1000)})
+			evs = append(evs, Event{"ev": "Attempt", "i": i + 1, "t": int(c / 1000), "prevDur": prevDur(i)})
 		}
 	}
 	if len(calls) > keep {
